@@ -43,7 +43,13 @@ class D(Driver):
 
     def cases(self, tier, seed):
         n = 32 if tier == "quick" else 400
-        return [("mix", seed, k) for k in range(n)]
+        cs = [("mix", seed, k) for k in range(n)]
+        from picomon.gen import corpus as _corpus
+
+        _nf = len(_corpus.files())
+        for _i in range(0, _nf, 12 if tier == "thorough" else 60):
+            cs.append(("pipeline", _i, min(_nf, _i + 12)))
+        return cs
 
     def setup_worker(self, tier, seed):
         affinemon.install()
@@ -54,6 +60,23 @@ class D(Driver):
         self.Rect = Rect
 
     def run_case(self, case):
+        if case[0] == "pipeline":
+            from picomon import conv as _conv
+            from picomon.gen import corpus as _corpus
+
+            res = new_result()
+            affinemon.STATE["seen"] = set()
+            for _f in _corpus.files()[case[1]:case[2]]:
+                _conv.convert(open(_f).read())
+                res["evals"] += 1
+                bump(res["features"], "pipeline_documents")
+            affinemon.STATE["seen"] = None
+            for ev in events.drain():
+                res["viol"].append(dict(rule=ev["rule"], sig=ev["sig"], mech=ev.get("mech"), msg=ev["msg"], replay=ev.get("replay")))
+            for kk, v in events.take_counts().items():
+                bump(res["counters"], "pipeline." + kk, v)
+            res["nt"] = events.take_nt()
+            return res
         _, seed, k = case
         rng = random.Random(f"C11-{seed}-{k}")
         res = new_result()
